@@ -23,7 +23,7 @@ func init() {
 func vpH_c06_envnames() {
 	ctx := context.Background()
 	class := "A_a" + vpConstChars("*sign.go")
-	name := vpStr(1, class) + vpStrUpTo(2, class)
+	name := vpStrUpTo(3, class) // the empty name included
 	val := vpStrUpTo(1, "x-y")
 	step := &pipeline.CommandStep{Command: "c"}
 	shadow := false
